@@ -73,12 +73,12 @@ def run(prog, tier, extra=None):
     res = Result("C14", "other")
     R1 = res.rule("C14.release", "removing pooled transactions releases their input reservations", floor=3)
     R2 = res.rule("C14.reserve", "inserting pooled transactions records their input reservations", floor=1)
-    R4 = res.rule("C14.release-only-removed", "utxo_map entries are released only for transactions that left the pool", floor=3)
+    R4 = res.rule("C14.release-only-removed", "utxo_map entries are released only for transactions that left the pool", floor=1)
     R5 = res.rule("C14.cached-work", "the cached routing work of the pool is reset or adjusted whenever pooled transactions are removed or inserted", floor=4)
     R6 = res.rule("C14.revalidate", "the pool is re-validated against the ledger on every block addition", floor=2)
     R3 = res.rule("C14.bundle-atomic", "bundle_block: no failure exit after the pool was drained without re-insertion", floor=1)
     fa = FieldAnalysis(prog)
-    tx_sites, map_sites = {}, {}
+    tx_sites, map_sites, map_sites_through = {}, {}, {}
     for b in prog.all_bodies():
         if "::tests::" in b.path or "/test/" in b.file or b.unit.crate not in ("saito_core", "saito_rust", "saito_spammer", "saito_wasm"):
             continue
@@ -88,9 +88,41 @@ def run(prog, tier, extra=None):
         m = [x for x in fa.sites(b, MEMPOOL, "utxo_map") if x[3] in ("insert", "remove", "replace", "unknown")]
         if m:
             map_sites[b.path] = (b, m)
+        # release / reserve done by a helper that is handed the pool itself (`self.release_reserved_inputs(&tx)`)
+        mt = [x for x in fa.sites(b, MEMPOOL, "utxo_map", through_self=True) if x[3] in ("insert", "remove", "replace", "unknown")]
+        if mt:
+            map_sites_through[b.path] = (b, mt)
 
     def map_blocks(b, kinds):
-        return {x[1] for x in map_sites.get(b.path, (b, []))[1] if x[3] in kinds}
+        return {x[1] for x in map_sites_through.get(b.path, (b, []))[1] if x[3] in kinds}
+
+    def unreleased_path(b, bb, depth=0):
+        """a path from the removal at bb (or from the call at bb that removes without releasing) to a success exit that passes no
+        release of utxo_map; when the body is a helper (it has callers), the obligation moves to each call site"""
+        rel = loop_relaxed(b, map_blocks(b, ("remove", "replace")))
+        ex = Explorer(b)
+        t = b.term(bb)
+        start = t.get("t") if t["k"] == "call" else bb
+        found = ex.explore(start, blocked=rel - {bb}, accept=success_exit(b)) if start is not None else {}
+        if not found:
+            return None
+        p = sorted(found.items())[0][1]
+        if depth < 2:
+            target = b.path[: -len("::{closure#0}")] if b.path.endswith("::{closure#0}") and b.is_coroutine else b.path
+            callers = []
+            for cb in prog.all_bodies():
+                if "::tests::" in cb.path or "/test/" in cb.file or cb.path == b.path:
+                    continue
+                for cbb, ct in cb.calls():
+                    if (ct.get("res") or ct.get("callee")) == target:
+                        callers.append((cb, cbb))
+            if callers:
+                for cb, cbb in callers:
+                    r = unreleased_path(cb, cbb, depth + 1)
+                    if r is not None:
+                        return r
+                return None
+        return (b, [bb] + p)
 
     def closure_touches_map(cb, kinds, depth=0):
         if any(x[3] in kinds for x in map_sites.get(cb.path, (cb, []))[1]):
@@ -113,15 +145,12 @@ def run(prog, tier, extra=None):
                 if ok_closure:
                     res.sample({"rule": R1, "site": b.loc(bb), "body": name, "verdict": "released inside the deciding closure"})
                     continue
-                rel = loop_relaxed(b, map_blocks(b, ("remove", "replace")))
-                ex = Explorer(b)
-                t = b.term(bb)
-                start = t.get("t") if t["k"] == "call" else bb
-                found = ex.explore(start, blocked=rel - {bb}, accept=success_exit(b)) if start is not None else {}
-                if found:
-                    p = sorted(found.items())[0][1]
-                    res.add(Finding(R1, key, "%s removes transactions from the pool (%s) and can finish without releasing their reserved inputs in utxo_map"
-                                    % (name, "::".join(short)), b.loc(bb), {"path": describe_path(b, [bb] + p)}))
+                bad = unreleased_path(b, bb)
+                if bad:
+                    wb, p = bad
+                    res.add(Finding(R1, key, "%s removes transactions from the pool (%s) and can finish without releasing their reserved inputs in utxo_map%s"
+                                    % (name, "::".join(short), "" if wb is b else " (judged at its caller %s)" % wb.path.split("::", 4)[-1]),
+                                    b.loc(bb), {"path": describe_path(wb, p)}))
                 else:
                     res.sample({"rule": R1, "site": b.loc(bb), "body": name, "via": "::".join(short), "verdict": "every success path releases utxo_map"})
             if s[3] in ("insert", "replace", "unknown"):
@@ -142,6 +171,53 @@ def run(prog, tier, extra=None):
                 else:
                     res.sample({"rule": R2, "site": b.loc(bb), "body": name, "verdict": "every success path reserves in utxo_map"})
 
+    def key_ok(b, key, depth):
+        """why the released key belongs to a transaction that left the pool (None if it cannot be shown)"""
+        ok = None
+        for x in walk(key):
+            if x[0] == "call" and x[1].rsplit("::", 1)[-1] in ("remove", "remove_entry", "take", "pop") and any(
+                    has_field(a, MEMPOOL, "transactions") for a in x[2][:1]):
+                ok = "the key comes from the transaction returned by transactions.%s()" % x[1].rsplit("::", 1)[-1]
+            if x[0] == "call" and x[1].endswith("block::Block::create"):
+                ok = "the key comes from the block built by draining the pool"
+        if ok is None and b.kind == "Closure" and not b.is_coroutine:
+            # a retain-style closure over the pool: the key comes from the element being decided
+            parent = prog.bodies.get(b.parent)
+            used_by_retain = False
+            if parent is not None:
+                pch = Chaser(parent)
+                for pbb, pt in parent.calls():
+                    if (call_name(pt) or "").rsplit("::", 1)[-1] in ("retain", "retain_mut", "extract_if") and pt["args"] and \
+                            has_field(pch.origin(pt["args"][0]), MEMPOOL, "transactions"):
+                        for a in pt["args"][1:]:
+                            if any(y[0] == "agg" and y[1][0] == "closure" and y[1][1] == b.path for y in walk(pch.origin(a))):
+                                used_by_retain = True
+            if used_by_retain and any(y[0] == "param" and y[1] >= 2 for y in walk(key)):
+                ok = "inside the retain closure over the pool: the key comes from the element being dropped"
+        # block created from the pool and awaited: (poll(..Block::create..) as Ready).0 ...
+        if ok is None and any(y[0] == "call" and y[1] == "std::future::Future::poll" and
+                              (b.term(y[3]).get("res") or "").startswith(CORE + "consensus::block::Block::create") for y in walk(key)):
+            ok = "the key comes from the block built by draining the pool"
+        if ok is None and depth < 3 and b.kind != "Closure":
+            # a helper that releases the inputs of the transaction it is handed: judged at every call site
+            params = sorted({y[1] for y in walk(key) if y[0] == "param"})
+            if len(params) == 1 and not any(y[0] == "local" for y in walk(key)):
+                k = params[0]
+                reasons = []
+                for cb in prog.all_bodies():
+                    if "::tests::" in cb.path or "/test/" in cb.file or cb.path == b.path:
+                        continue
+                    cch = None
+                    for cbb, ct in cb.calls():
+                        if (ct.get("res") or ct.get("callee")) != b.path or k - 1 >= len(ct["args"]):
+                            continue
+                        cch = cch or Chaser(cb)
+                        r = key_ok(cb, cch.origin(ct["args"][k - 1]), depth + 1)
+                        reasons.append(r)
+                if reasons and all(reasons):
+                    ok = "helper parameter; at each of its %d call site(s): %s" % (len(reasons), reasons[0])
+        return ok
+
     # R4: a reservation is released only for a transaction that left the pool
     for path, (b, sites) in sorted(map_sites.items()):
         name = path.split("::", 4)[-1]
@@ -155,33 +231,7 @@ def run(prog, tier, extra=None):
                 continue
             res.instance(R4)
             key = chb.origin(t["args"][1])
-            ok = None
-            for x in walk(key):
-                if x[0] == "call" and x[1].rsplit("::", 1)[-1] in ("remove", "remove_entry", "take", "pop") and any(
-                        has_field(a, MEMPOOL, "transactions") for a in x[2][:1]):
-                    ok = "the key comes from the transaction returned by transactions.%s()" % x[1].rsplit("::", 1)[-1]
-                if x[0] == "call" and x[1].endswith("block::Block::create"):
-                    ok = "the key comes from the block built by draining the pool"
-                if x[0] == "yield":
-                    pass
-            if ok is None and b.kind == "Closure" and not b.is_coroutine:
-                # a retain-style closure over the pool: the key comes from the element being decided
-                parent = prog.bodies.get(b.parent)
-                used_by_retain = False
-                if parent is not None:
-                    pch = Chaser(parent)
-                    for pbb, pt in parent.calls():
-                        if (call_name(pt) or "").rsplit("::", 1)[-1] in ("retain", "retain_mut", "extract_if") and pt["args"] and \
-                                has_field(pch.origin(pt["args"][0]), MEMPOOL, "transactions"):
-                            for a in pt["args"][1:]:
-                                if any(y[0] == "agg" and y[1][0] == "closure" and y[1][1] == b.path for y in walk(pch.origin(a))):
-                                    used_by_retain = True
-                if used_by_retain and any(y[0] == "param" and y[1] >= 2 for y in walk(key)):
-                    ok = "inside the retain closure over the pool: the key comes from the element being dropped"
-            # block created from the pool and awaited: (poll(..Block::create..) as Ready).0 ...
-            if ok is None and any(y[0] == "call" and y[1] == "std::future::Future::poll" and
-                                  (b.term(y[3]).get("res") or "").startswith(CORE + "consensus::block::Block::create") for y in walk(key)):
-                ok = "the key comes from the block built by draining the pool"
+            ok = key_ok(b, key, 0)
             if ok:
                 res.sample({"rule": R4, "site": b.loc(s_[1]), "body": name, "verdict": ok})
             else:
